@@ -161,13 +161,13 @@ func init() {
 		ID:          "C12",
 		Explanation: "RQ (shared with C13): a position computed after an unregistered newline names a line/column that does not exist. RQ2: parser.Parse returns a nil AST only on the reader-error path, otherwise the returned AST is non-nil on every path (nil-check fallback dominates) and the error is exactly handler.Error(). RQ3: positions in the lexer are computed from reader offsets, never from len() of text re-encoded from runes (an invalid UTF-8 byte re-encodes to 3 bytes). RQ4: every AST field the error-tolerant grammar may leave nil (constructor parameters that receive a literal nil in the compiled actions, mapped to struct fields) is dereferenced in the AST→descriptor conversion only under a dominating nil test (including && / || short-circuit guards).",
 		NotDecided:  "panic-freedom of the generated parser and the AST constructors on arbitrary bytes; that converting the AST to a descriptor never panics",
-		Rules:       []func(*World){rqNewlines, rqParseShape, rq3ByteDistances, rq4NilableFields, rq5NilableGrammarValues, rq6TypedNilAccessors},
+		Rules:       []func(*World){rqNewlines, rqParseShape, rq3ByteDistances, rq4NilableFields, rq5NilableGrammarValues, rq6TypedNilAccessors, rq7CtorNilContract, rq8NodeInfoGuards},
 	})
 	register(&Property{
 		ID:          "C14",
 		Explanation: "RP (sibling contradiction): the escape tables of the three string-literal decoders in the repository (parser lexer, fast scanner, linker.unescape) are extracted from their switch statements (letters per clause computed by evaluating the case conditions over all ASCII values; produced byte read from the single write of a simple clause) and must agree on the simple escapes and their bytes and on the multi-character introducers; each must equal the language specification's 11 simple escapes. RCF: no unreviewed case folding in the lexer/AST literal code.",
 		NotDecided:  "agreement with protoc on hex/octal/unicode digit handling, numeric literal values, overflow behaviour",
-		Rules:       []func(*World){rpC14, rp2EscapeBounds, rp3C14, rcfCaseFolding},
+		Rules:       []func(*World){rpC14, rp2EscapeBounds, rp3C14, rp4IntConversions, rcfCaseFolding},
 	})
 	register(&Property{
 		ID:          "C25",
